@@ -18,9 +18,14 @@ pub struct Passwd<'a> {
 /// `uid` isn't listed in `/etc/passwd`
 /// `/etc/passwd` isn't readable.
 pub fn getpwuid_r(uid: UidT, buf: &mut [u8]) -> Result<Option<Passwd>> {
-    let fd =
-        unsafe { rusl::unistd::open_raw(c"/etc/passwd".as_ptr() as usize, OpenFlags::O_RDONLY)? };
-    search_pwd_fd(fd, uid, buf)
+    // Owned so that the descriptor is closed again whichever way the search ends
+    let fd = unsafe {
+        crate::unix::fd::OwnedFd::from_raw(rusl::unistd::open_raw(
+            c"/etc/passwd".as_ptr() as usize,
+            OpenFlags::O_RDONLY,
+        )?)
+    };
+    search_pwd_fd(fd.0, uid, buf)
 }
 
 #[inline]
